@@ -43,7 +43,7 @@ class PathResolver:
         try:
             if file_path.is_absolute():
                 return file_path.relative_to(self.project_root)
-            return file_path
+            return file_path.resolve().relative_to(self.project_root.resolve())
         except ValueError:
             # If path is outside project root, return it as-is
             # This allows detection of absolute paths in global_deny patterns
